@@ -195,6 +195,16 @@ func Quiesce() {
 	}
 }
 
+// TakeTime is what a slow application callback or listener does: natively it yields the
+// processor many times (it must not block: inside a virtual-time bubble a goroutine that
+// holds a lock others wait for can neither sleep nor wait for the bubble to settle);
+// symbolically every other goroutine runs until it blocks.
+func TakeTime() {
+	for i := 0; i < 400; i++ {
+		runtime.Gosched()
+	}
+}
+
 // Event registers an environment event that the executor may inject at any yield
 // point; natively events are fired by the replay driver's schedule (see inject.go).
 func Event(name string, fn func()) { registerEvent(name, fn) }
